@@ -53,3 +53,24 @@ package migrator
 //@   in migrator.(Migrator).AutoMigrate migrator.(Migrator).AutoMigrate$1 migrator.(Migrator).MigrateColumn
 //@   min-sites 0
 //@   assert nothing-is-dropped-or-renamed: false [C20]
+
+//@ # ---------- C20: what AutoMigrate does last, and how it compares bool defaults ----------
+//@ # Adding a constraint may make the dialect rebuild the table (SQLite), which drops its indexes: the index pass
+//@ # runs after every column and constraint step, so indexes that disappeared on the way are created again.
+//@ ghost indexPassStarted
+//@ event invoke Migrator.HasIndex
+//@   in migrator.(Migrator).AutoMigrate$1
+//@   do indexPassStarted = 1
+//@ site index-pass-is-last
+//@   match invoke Migrator.HasConstraint | invoke Migrator.CreateConstraint | invoke Migrator.AddColumn | invoke Migrator.MigrateColumn
+//@   in migrator.(Migrator).AutoMigrate$1
+//@   min-sites 6
+//@   entry indexPassStarted == 0
+//@   assert before-the-index-pass: indexPassStarted == 0 [C20]
+//@ # A bool default is the same default however it is spelled (1, true, TRUE, t): compared as values, a repeated
+//@ # AutoMigrate does not alter the column again.
+//@ site bool-defaults-compared-as-values
+//@   match call strconv.ParseBool
+//@   in migrator.(Migrator).MigrateColumn
+//@   min-sites 2
+//@   assert compares-parsed-values: true [C20]
